@@ -1,0 +1,31 @@
+//go:build verif
+
+// Contracts checked by /verif/gvc (contract-based deductive verification).
+// This file contains comments only; it is compiled only under the "verif" build tag.
+
+package fifo
+
+// C13 — outbound topic aliases. aliasOK is the representation invariant of the alias table:
+// every alias in use lies in 1..max, no two topics share an alias, every list element is an *aliasElem
+// that agrees with the index, and the table holds as many topics as the list has elements (<= max).
+// With it the client's view is determined: an alias resolves to the one topic indexed under it.
+
+//@ spec func aliasOK(t *topicAlias) bool = t != nil && t.alias != nil && t.index != nil && listOK(t.alias) && 1 <= t.max && t.max <= 65535 && t.alias.$len <= t.max && len(t.index) == t.alias.$len && (forall s string :: has(t.index, s) ==> 1 <= t.index[s] && int(t.index[s]) <= t.alias.$len) && (forall a string, b string :: has(t.index, a) && has(t.index, b) && a != b ==> t.index[a] != t.index[b]) && (forall e *list.Element :: inList(t.alias, e) ==> e.Value.(type *aliasElem) && e.Value.(*aliasElem) != nil && has(t.index, e.Value.(*aliasElem).topic) && t.index[e.Value.(*aliasElem).topic] == e.Value.(*aliasElem).alias) && (forall e *list.Element, f *list.Element :: inList(t.alias, e) && inList(t.alias, f) && e != f ==> e.Value.(*aliasElem).topic != f.Value.(*aliasElem).topic)
+
+//@ func (*Queue).Check
+//@ props C13
+//@ let T = q.topicAlias
+//@ requires [C13] q != nil && publish != nil && aliasOK(q.topicAlias)
+//@ modifies map(T.index), ghost(T.alias.$len), ghost(T.alias.$next), ghostall(list.Element.$owner), ghostall(list.Element.$pos), all(list.Element.Value)
+//@ ensures [C13] 1 <= alias && int(alias) <= T.max
+//@ ensures [C13] listOK(T.alias) && T.alias.$len <= T.max && len(T.index) == T.alias.$len
+//@ ensures [C13] forall s string :: has(T.index, s) ==> 1 <= T.index[s] && int(T.index[s]) <= T.alias.$len
+//@ ensures [C13] forall e *list.Element :: inList(T.alias, e) ==> e.Value.(type *aliasElem) && e.Value.(*aliasElem) != nil
+//@ ensures [C13] forall e *list.Element :: inList(T.alias, e) ==> has(T.index, e.Value.(*aliasElem).topic) && T.index[e.Value.(*aliasElem).topic] == e.Value.(*aliasElem).alias
+//@ ensures [C13] forall e *list.Element, f *list.Element :: inList(T.alias, e) && inList(T.alias, f) && e != f ==> e.Value.(*aliasElem).topic != f.Value.(*aliasElem).topic
+//@ ensures [C13] has(T.index, topicOf(publish)) && T.index[topicOf(publish)] == alias
+//@ ensures [C13] exist == old(has(T.index, topicOf(publish)))
+//@ ensures [C13] exist ==> alias == old(T.index[topicOf(publish)])
+//@ ensures [C13] forall a string, b string :: has(T.index, a) && has(T.index, b) && a != b ==> T.index[a] != T.index[b]
+//@ ensures [C13] forall s string :: s != topicOf(publish) && has(T.index, s) ==> old(has(T.index, s)) && T.index[s] == old(T.index[s])
+//@ spec func topicOf(p *packets.Publish) string = string(p.TopicName)
